@@ -75,6 +75,7 @@ func runC25(c *Ctx) {
 	defer func() { r.Extra["rule_eval_s"] = time.Since(t0).Seconds() }()
 	r.Rule("C25.R1", "ToICE: every ICECandidateType constant is converted by the matching pion/ice constructor; each of the four config literals fills CandidateID, Network, Address, Port, Component, Foundation, Priority (host: also TCPType; the others: also RelAddr, RelPort) from exactly the ICECandidate field of the oracle; the siblings fill a shared key with the same expression; unknown types return an error; extensions are exported on every successful conversion", 52)
 	r.Rule("C25.R2", "newICECandidateFromICE fills every field of ICECandidate from the matching ice.Candidate getter (or parameter); convertTypeFromICE, tabulated over all declared ice.CandidateType values and one undeclared value, is the inverse of ToICE's dispatch and rejects everything else", 20)
+	r.Rule("C25.R5", "AddICECandidate hands ice.UnmarshalCandidate the init's Candidate text with only the literal \"candidate:\" prefix removed: no other strings-package call (TrimSpace, Fields, ...) on the way (a leading space is pion's form of an empty foundation)", 1)
 	r.Rule("C25.R3", "AddICECandidate: under the valuation (ufrag extension present, descriptionContainsUfrag false) the call AddRemoteCandidate(<non-nil>) is unreachable and every exit reachable after the lookup returns a nil error; under the other valuations the call is reachable; the looked-up extension key is \"ufrag\" and it is compared with the applied remote description; descriptionContainsUfrag returns true only on the true edge of an equality between an ice-ufrag attribute and its argument", 6)
 	r.NotCovered = append(r.NotCovered,
 		"the hand-written extension splitter exportExtensions / setExtensions (string algorithm)",
@@ -86,6 +87,7 @@ func runC25(c *Ctx) {
 	c25R1(c)
 	c25R2(c)
 	c25R3(c)
+	c25R5(c) // c25c.go
 }
 
 func c25IceScope(c *Ctx, rule string) *types.Scope {
